@@ -35,7 +35,11 @@ type outcome struct {
 // rigs[2] is like rigs[0] but configured with a request ReadTimeout (readTimeoutMs).
 type rigSet [3]*proxyRig
 
-const readTimeoutMs = 600
+const (
+	readTimeoutMs  = 600
+	writeTimeoutMs = 500
+	idleTimeoutMs  = 400
+)
 
 func runScenario(rigs rigSet, p Params) outcome {
 	rig := rigs[0]
@@ -252,11 +256,12 @@ func genParams(tier string, seed uint64) []Params {
 	for i := 0; i < nN; i++ {
 		out = append(out, genOne(r, len(out), seed, nativeModes[i%len(nativeModes)], false, i%3 == 0, tier))
 	}
-	// tunnels that outlive the configured request ReadTimeout: the client is the second closer and sends
-	// its remaining bytes when the tunnel is older than the timeout
-	nR := 12
+	// tunnels that outlive the configured ReadTimeout / WriteTimeout / IdleTimeout (proxy instance with all
+	// three set): the second closer sends its remaining bytes when the tunnel is older than each of them —
+	// the client (late client-to-target bytes) or the far endpoint (late target-to-client bytes)
+	nR := 16
 	if tier == "thorough" {
-		nR = 60
+		nR = 80
 	}
 	for i := 0; i < nR; i++ {
 		p := genOne(r, len(out), seed, gatedModes[i%len(gatedModes)], true, i%3 != 0, tier)
@@ -267,13 +272,18 @@ func genParams(tier string, seed uint64) []Params {
 			p.SlowReader = [2]bool{}
 		}
 		p.ReadTimeoutMs = readTimeoutMs
+		late, done := CT, p.Early
 		p.Order = "target_first"
+		if i%2 == 1 {
+			late, done = TC, p.Banner
+			p.Order = "client_first"
+		}
 		p.Post = [2]int{}
-		if rest := p.Len[CT] - p.Early; rest > 0 {
-			p.Post[CT] = 1 + r.Intn(rest)
+		if rest := p.Len[late] - done; rest > 0 {
+			p.Post[late] = 1 + r.Intn(rest)
 		} else {
-			p.Len[CT] += 7
-			p.Post[CT] = 7
+			p.Len[late] += 7
+			p.Post[late] = 7
 		}
 		p.HoldMs = readTimeoutMs + 300 + r.Intn(500)
 		p.TimeoutMs = 8000
@@ -451,11 +461,7 @@ func main() {
 
 	var rig rigSet
 	for i, h := range []bool{false, true, false} {
-		var rt time.Duration
-		if i == 2 {
-			rt = readTimeoutMs * time.Millisecond
-		}
-		r, err := startProxy(h, rt)
+		r, err := startProxy(h, i == 2)
 		if err != nil {
 			fmt.Fprintln(os.Stderr, "starting proxy:", err)
 			os.Exit(2)
@@ -636,7 +642,7 @@ func main() {
 			dist["via_http_handler"]++
 		}
 		if p.ReadTimeoutMs > 0 {
-			dist["tunnel_older_than_read_timeout"]++
+			dist["tunnel_older_than_read_write_idle_timeouts"]++
 		}
 		if p.Gated {
 			dist["gated"]++
